@@ -79,11 +79,27 @@ impl Rng {
     /// odd modulus with a large top limb, so that values with a smaller top limb are reduced
     fn modulus(&mut self, n: usize) -> Vec<u64> {
         let mut v: Vec<u64> = (0..n).map(|_| self.limb()).collect();
-        v[n - 1] = match self.below(3) {
-            0 => u64::MAX,
-            1 => (1 << 63) | self.next(),
-            _ => 0x4000_0000_0000_0000 | (self.next() >> 2),
-        };
+        match self.below(6) {
+            0 => v[n - 1] = u64::MAX,
+            1 => v[n - 1] = (1 << 63) | self.next(),
+            2 => v[n - 1] = 0x4000_0000_0000_0000 | (self.next() >> 2),
+            // leading-zero classes (added after the round-2 seeded change C15-C: the clamp of the
+            // leading-zero count in impl_modulus! differs from the run-time constructors only for a
+            // modulus with exactly 64 leading zero bits)
+            3 if n >= 2 => {
+                v[n - 1] = 0;
+                v[n - 2] |= 1 << 63;
+            }
+            4 => {
+                let sh = 1 + self.below(62);
+                v[n - 1] = ((self.next() | (1 << 63)) >> sh).max(2);
+            }
+            5 if n >= 2 => {
+                v[n - 1] = 0;
+                v[n - 2] = (self.next() >> self.below(63)).max(2);
+            }
+            _ => v[n - 1] = (1 << 63) | self.next(),
+        }
         v[0] |= 1;
         if n == 1 && v[0] < 8 {
             v[0] = 0x8000_0000_0000_001d;
@@ -102,11 +118,18 @@ impl Rng {
             }
             _ => (0..n).map(|_| self.limb()).collect(),
         };
-        let top = m[n - 1];
         if n == 1 {
-            v[0] %= top;
+            v[0] %= m[0];
         } else {
-            v[n - 1] = if top > 1 { self.below(top) } else { 0 };
+            // below the modulus: clear everything above its top non-zero limb, and draw that limb below it
+            let t = (0..n).rev().find(|&i| m[i] != 0).unwrap_or(0);
+            for w in v.iter_mut().skip(t + 1) {
+                *w = 0;
+            }
+            v[t] = if m[t] > 1 { self.below(m[t]) } else { 0 };
+            if t == 0 {
+                v[0] %= m[0];
+            }
         }
         v
     }
